@@ -44,6 +44,17 @@ OMEN_W = {'ngram': 2, 'alphabet': ['x', 'y', 'z'], 'ip': {'x': 0, 'y': 0, 'z': 1
 OMEN_HI = dict(OMEN_X, ln=[10, 8, 9], keyspace={8: 1, 9: 3, 10: 3, 11: 2, 12: 2}, top_level=14)
 
 
+# alphabets with a blank / with characters that mean something to the .sav file's syntax: strings that begin or end with a blank, contain '%', '=', ';' or '#'
+def _relabel(m, mp):
+    tr = lambda k: ''.join(mp.get(c, c) for c in k)
+    return dict(m, alphabet=[tr(a) for a in m['alphabet']], ip={tr(k): v for k, v in m['ip'].items()}, cp={tr(k): v for k, v in m['cp'].items()})
+
+
+OMEN_BLANK = _relabel(OMEN_X, {'y': ' '})
+OMEN_PCT = _relabel(OMEN_W, {'y': '%', 'z': ' '})
+OMEN_SYN = _relabel(OMEN_W, {'x': '=', 'y': ';', 'z': '#'})
+
+
 def omen(m, probs):
     d = dict(m)
     d['omen_prob'] = probs
@@ -75,6 +86,9 @@ def specs(tier):
     add([('D1', .5), ('M', .5)], omen(OMEN_W, [(1, .5), (2, .125), (3, .125), (4, .125)]), 'levels 2=3=4 tied in one pre-terminal')
     # a tied group that mixes level numbers of one and of two digits (the zero-probability tail the trainer writes: 4, 5, 10, 11, ...)
     add([('D1', .5), ('M', .5)], omen(OMEN_HI, [(8, .25), (9, .125), (10, .125), (11, .125)]), 'levels 9=10=11 tied in one pre-terminal')
+    add([('D1', .5), ('M', .5)], omen(OMEN_BLANK, [(1, .5), (2, .25), (3, .125)]), 'alphabet with a blank: strings that begin / end with blanks')
+    add([('M', .6), ('D1', .4)], omen(OMEN_PCT, [(1, .25), (2, .25), (3, .125)]), "alphabet x % blank, levels 1=2 tied")
+    add([('D1', .5), ('M', .5)], omen(OMEN_SYN, [(1, .5), (2, .25)]), "alphabet = ; #")
     if tier == 'thorough':
         add([('M', .5), ('A1D1', .5)], omen(OMEN_Y, [(1, .25), (2, .0625)]), 'ngram2 three letters')
         add([('A1', .5), ('M', .25), ('D1D1', .25)], omen(OMEN_X, [(1, .5), (2, .25), (3, .125)]), 'three structures')
